@@ -98,6 +98,19 @@ end Data
 namespace Data
 open Swar
 
+/-- every inner list has length `n` -/
+def allLen (n : Nat) : List (List Nat) → Bool
+  | [] => true
+  | l :: ls => Nat.beq l.length n && allLen n ls
+
+theorem allLen_sound (n : Nat) : ∀ (ls : List (List Nat)), allLen n ls = true → ∀ l ∈ ls, l.length = n
+  | [], _, l, hl => by cases hl
+  | x :: xs, h, l, hl => by
+    simp only [allLen, Bool.and_eq_true, Nat.beq_eq] at h
+    cases hl with
+    | head => exact h.1
+    | tail _ hm => exact allLen_sound n xs h.2 l hm
+
 section V1
 open Gen.Tab1
 theorem t1_G  : Gc (nZ - 1) = Gm (nZ - 1) := by decide +kernel
@@ -106,6 +119,7 @@ theorem t1_P  : Pc (nZ - 1) = B ^ (nZ - 1) := by decide +kernel
 theorem t1_pG : Gc pnB = Gm pnB := by decide +kernel
 theorem t1_pP : Pc pnB = B ^ pnB := by decide +kernel
 theorem t1_pC : Cc bitsOne pnB = Cm bitsOne pnB := by decide +kernel
+theorem t1_byE : cdfRowsByE.length = nE ∧ allLen nB cdfRowsByE = true := by decide +kernel
 theorem t1_dims : cdfRows.length = nE * nB ∧ logE.length = nE ∧ beta.length = nB ∧ frac.length = nZ
     ∧ pexitRows.length = pnE ∧ plogE.length = pnE ∧ pbeta.length = pnB ∧ 2 ≤ nE ∧ 2 ≤ nB ∧ 2 ≤ nZ
     ∧ plogE = logE ∧ pbeta = beta := by decide +kernel
@@ -124,6 +138,7 @@ theorem t2_P  : Pc (nZ - 1) = B ^ (nZ - 1) := by decide +kernel
 theorem t2_pG : Gc pnB = Gm pnB := by decide +kernel
 theorem t2_pP : Pc pnB = B ^ pnB := by decide +kernel
 theorem t2_pC : Cc bitsOne pnB = Cm bitsOne pnB := by decide +kernel
+theorem t2_byE : cdfRowsByE.length = nE ∧ allLen nB cdfRowsByE = true := by decide +kernel
 theorem t2_dims : cdfRows.length = nE * nB ∧ logE.length = nE ∧ beta.length = nB ∧ frac.length = nZ
     ∧ pexitRows.length = pnE ∧ plogE.length = pnE ∧ pbeta.length = pnB ∧ 2 ≤ nE ∧ 2 ≤ nB ∧ 2 ≤ nZ
     ∧ plogE = logE ∧ pbeta = beta := by decide +kernel
@@ -142,6 +157,7 @@ theorem t3_P  : Pc (nZ - 1) = B ^ (nZ - 1) := by decide +kernel
 theorem t3_pG : Gc pnB = Gm pnB := by decide +kernel
 theorem t3_pP : Pc pnB = B ^ pnB := by decide +kernel
 theorem t3_pC : Cc bitsOne pnB = Cm bitsOne pnB := by decide +kernel
+theorem t3_byE : cdfRowsByE.length = nE ∧ allLen nB cdfRowsByE = true := by decide +kernel
 theorem t3_dims : cdfRows.length = nE * nB ∧ logE.length = nE ∧ beta.length = nB ∧ frac.length = nZ
     ∧ pexitRows.length = pnE ∧ plogE.length = pnE ∧ pbeta.length = pnB ∧ 2 ≤ nE ∧ 2 ≤ nB ∧ 2 ≤ nZ
     ∧ plogE = logE ∧ pbeta = beta := by decide +kernel
